@@ -40,12 +40,28 @@ func checkSegment(payload []byte, selfContained, lz bool) (fail string, excluded
 // checkSegmentFrom: chunks != nil makes the round-trip decode read through a short-read source.
 func checkSegmentFrom(payload []byte, selfContained, lz bool, chunks []int) (fail string, excluded bool) {
 	codec := segCodec(lz)
-	seg := &segment.Segment{Header: &segment.Header{IsSelfContained: selfContained}, Payload: &segment.Payload{UncompressedData: payload}}
+	// the payload is handed over as a slice of a larger buffer (a sub-slice of an envelope being cut into segments): the
+	// encoder may read len(payload) bytes and must not write to the caller's memory, neither inside nor behind the slice
+	backing := make([]byte, len(payload)+24)
+	copy(backing, payload)
+	for i := len(payload); i < len(backing); i++ {
+		backing[i] = 0xee
+	}
+	given := backing[:len(payload)]
+	seg := &segment.Segment{Header: &segment.Header{IsSelfContained: selfContained}, Payload: &segment.Payload{UncompressedData: given}}
 	var buf bytes.Buffer
 	if err := codec.EncodeSegment(seg, &buf); err != nil {
 		return fmt.Sprintf("EncodeSegment failed for a %d-byte payload: %v", len(payload), err), false
 	}
 	enc := buf.Bytes()
+	if !bytes.Equal(backing[:len(payload)], payload) {
+		return "EncodeSegment modified the payload it was given", false
+	}
+	for i := len(payload); i < len(backing); i++ {
+		if backing[i] != 0xee {
+			return fmt.Sprintf("EncodeSegment wrote into the caller's memory behind the payload slice (offset +%d: %#x)", i-len(payload), backing[i]), false
+		}
+	}
 	// --- layout against the independent implementation
 	p, err := ref.ParseSegment(enc, lz)
 	if err != nil {
